@@ -81,6 +81,47 @@ func init() {
 			x.defBool("parseChecksScannerErr", len(x.calls(parse, "scanner.Err")) > 0)
 			x.defBool("parseSetsScannerBuffer", len(x.calls(parse, "scanner.Buffer")) > 0)
 			x.defBool("parseTrimsSpace", len(x.calls(parse, "strings.TrimSpace")) == 1)
+			// Parse carries no state from line to line other than the line counter and the result list:
+			// every name it declares or assigns, every `continue`, every append, every make/map literal
+			names := map[string]bool{}
+			continues, makes := 0, 0
+			var appends []string
+			ast.Inspect(parse.Body, func(n ast.Node) bool {
+				switch v := n.(type) {
+				case *ast.AssignStmt:
+					for _, l := range v.Lhs {
+						names[x.src(l)] = true
+					}
+				case *ast.ValueSpec:
+					for _, id := range v.Names {
+						names[id.Name] = true
+					}
+				case *ast.IncDecStmt:
+					names[x.src(v.X)] = true
+				case *ast.BranchStmt:
+					if v.Tok == token.CONTINUE {
+						continues++
+					}
+				case *ast.CompositeLit:
+					makes++
+				case *ast.CallExpr:
+					switch x.src(v.Fun) {
+					case "append":
+						appends = append(appends, x.src(v))
+					case "make", "new":
+						makes++
+					}
+				}
+				return true
+			})
+			var ns []string
+			for n := range names {
+				ns = append(ns, n)
+			}
+			x.defSortedStrList("parseAssigned", ns)
+			x.defNat("parseContinues", uint64(continues))
+			x.defNat("parseAllocations", uint64(makes))
+			x.defStrList("parseAppends", appends)
 		}
 		x.defNat("maxScanTokenSize", uint64(bufio.MaxScanTokenSize)) // the Go standard library factgen is built with
 
